@@ -684,6 +684,16 @@ func (r *HeaderFooterResult) FilterFragments(pageIndex int, fragments []text.Tex
 		footerRegion *= scale
 	}
 
+	// Detection measures the marginal bands from the page edges. When the content
+	// lies inside the page, filtering must do the same: measuring from the content's
+	// own extent would put the topmost and bottommost fragment of every page at
+	// distance 0, so body text that merely equals a header or footer line (or any
+	// text on a short page) would be removed. The content extent is only used for
+	// pages whose coordinates do not fit the page box.
+	if !invertedCoords && minY >= 0 && maxY <= pageHeight {
+		minY, maxY = 0, pageHeight
+	}
+
 	var filtered []text.TextFragment
 
 	for _, frag := range fragments {
